@@ -57,7 +57,8 @@ instance (types : List Nat) : Decidable (IsAncestorDelegation types) := by
 * `o` and `next` are names of the zone, `o` owns data, among it the NSEC and its RRSIG
   (whatever the bitmap says about those two: RFC 4035 §5.4);
 * the bitmap lists exactly the types at `o` — except that an ancestor-delegation record
-  speaks only about DS (and shows the delegation's NS);
+  speaks only about DS (and shows the delegation's NS; a name that owns NS does not own a CNAME,
+  RFC 1034 §3.6.2 / RFC 2181 §10.1, on either side of the cut);
 * no name owning data lies strictly between `o` and `next` in canonical order; the last link
   points back to the apex and has nothing of the zone after `o` — except that an
   ancestor-delegation record says nothing about the names below its owner. -/
@@ -66,7 +67,7 @@ def LinkOf (Z : ZoneView) (r : Nsec) : Prop :=
   let n := canonKey r.next
   let exempt (m : Key) : Prop := IsAncestorDelegation r.types ∧ o <+: m
   Z.apex <+: o ∧ Z.apex <+: n ∧ Z.data o 47 ∧ Z.data o 46 ∧
-  (if IsAncestorDelegation r.types then Z.data o 2 ∧ (43 ∈ r.types ↔ Z.data o 43)
+  (if IsAncestorDelegation r.types then Z.data o 2 ∧ (43 ∈ r.types ↔ Z.data o 43) ∧ ¬ Z.data o 5
    else ∀ t, t ≠ 46 → t ≠ 47 → (t ∈ r.types ↔ Z.data o t)) ∧
   (if n = Z.apex then ∀ m, Z.hasData m → Z.apex <+: m → o < m → exempt m
    else o < n ∧ Z.hasData n ∧ ∀ m, Z.hasData m → o < m → m < n → exempt m)
@@ -81,8 +82,9 @@ def rfcLabels (k : Key) : Nat := if k.getLast? = some STAR then k.length - 1 els
 
 * NXDOMAIN: the name does not exist — not even as an empty non-terminal (RFC 8020) — and the
   wildcard at its closest encloser does not exist either (no wildcard could match);
-* NODATA (NOERROR, no answers): the type is absent at the name, and if the name does not exist
-  the type is absent at the wildcard at its closest encloser;
+* NODATA (NOERROR, no answers): the type is absent at the name and so is CNAME (RFC 6840 §4.3: a
+  CNAME at the name would have been the answer), and if the name does not exist the same holds
+  at the wildcard at its closest encloser;
 * wildcard-expanded answer (NOERROR with answers): for every authenticated RRSIG at the query
   name whose Labels field `l` is smaller than the name's label count (RFC 4035 §5.3.4), neither
   the name nor any ancestor of it with more than `l` labels exists (no closer match than the
@@ -92,7 +94,9 @@ def Claim (q : Name) (qtype rcode : Nat) (answers : List Ans) (Z : ZoneView) : P
   if rcode = 3 then
     ¬ Z.Exists k ∧ ∀ c, Z.ClosestEncloser c k → ¬ Z.Exists (c ++ [STAR])
   else if rcode = 0 ∧ answers = [] then
-    ¬ Z.data k qtype ∧ (¬ Z.Exists k → ∀ c, Z.ClosestEncloser c k → ¬ Z.data (c ++ [STAR]) qtype)
+    (¬ Z.data k qtype ∧ ¬ Z.data k 5) ∧
+    (¬ Z.Exists k → ∀ c, Z.ClosestEncloser c k →
+      ¬ Z.data (c ++ [STAR]) qtype ∧ ¬ Z.data (c ++ [STAR]) 5)
   else if rcode = 0 then
     ∀ a ∈ answers, a.secure = true → ∀ l, a.rrsigLabels = some l → canonKey a.name = k →
       l < rfcLabels k → ∀ p, p <+: k → l < p.length → ¬ Z.Exists p
